@@ -14,7 +14,9 @@ import (
 	"os"
 	"os/exec"
 	"sort"
+	"strconv"
 	"strings"
+	"sync"
 
 	"github.com/PapaCharlie/go-restli/v2/restli/batchkeyset"
 	"github.com/PapaCharlie/go-restli/v2/restlicodec"
@@ -51,6 +53,14 @@ func caseList(seed int64, perType int) []tcase {
 					// the same value with one map grown beyond a thousand entries (writers that buffer map entries)
 					if big := model.Clone(v); model.GrowFirstMap(big, 1030+len(out)%100) {
 						out = append(out, tcase{set, td.FullName(), big})
+					}
+				}
+				if i == 2 {
+					// keys beyond the basic multilingual plane, next to keys from its last rows: byte order and UTF-16 code
+					// unit order disagree here, and several keys share a lead surrogate
+					astral := []string{"\U0001F600", "\U0001F602", "\U0001F44D", "\U0001F600a", "\U0001F600\U0001F602", "\uE000", "\uFFFD", "\uFF5E", "\U00010000", "\U0010FFFF"}
+					if av := model.Clone(v); model.AddKeysToFirstMap(av, astral) {
+						out = append(out, tcase{set, td.FullName(), av})
 					}
 				}
 			}
@@ -229,6 +239,7 @@ func main() {
 	}
 	excludedWriters(run, cases, rand.New(rand.NewSource(run.Seed+19)))
 	queryParamsAndBatchIds(run, rand.New(rand.NewSource(run.Seed+9)))
+	sharedKeySet(run, rand.New(rand.NewSource(run.Seed+29)))
 	// fresh processes
 	self, _ := os.Executable()
 	want := digestOf(cases)
@@ -254,6 +265,7 @@ func main() {
 	run.Require("query_param_cases", 50)
 	run.Require("excluded_writer_cases", 200)
 	run.Require("batch_id_cases", 50)
+	run.Require("shared_key_set_encodes", 30)
 	run.Finish()
 }
 
@@ -267,9 +279,15 @@ func excludedWriters(run *ev.Run, cases []tcase, rng *rand.Rand) {
 		mk   func(spec restlicodec.PathSpec) restlicodec.Writer
 	}
 	writers := []wf{
-		{"json-compact+excluded", true, func(p restlicodec.PathSpec) restlicodec.Writer { return restlicodec.NewCompactJsonWriterWithExcludedFields(p) }},
-		{"json-pretty+excluded", true, func(p restlicodec.PathSpec) restlicodec.Writer { return restlicodec.NewPrettyJsonWriterWithExcludedFields(p) }},
-		{"ror2-header+excluded", false, func(p restlicodec.PathSpec) restlicodec.Writer { return restlicodec.NewRor2HeaderWriterWithExcludedFields(p) }},
+		{"json-compact+excluded", true, func(p restlicodec.PathSpec) restlicodec.Writer {
+			return restlicodec.NewCompactJsonWriterWithExcludedFields(p)
+		}},
+		{"json-pretty+excluded", true, func(p restlicodec.PathSpec) restlicodec.Writer {
+			return restlicodec.NewPrettyJsonWriterWithExcludedFields(p)
+		}},
+		{"ror2-header+excluded", false, func(p restlicodec.PathSpec) restlicodec.Writer {
+			return restlicodec.NewRor2HeaderWriterWithExcludedFields(p)
+		}},
 	}
 	for _, c := range cases {
 		if c.v == nil || (c.v.Kind != model.KRecord && c.v.Kind != model.KMap) {
@@ -485,6 +503,56 @@ func queryParamsAndBatchIds(run *ev.Run, rng *rand.Rand) {
 			})
 		}
 	}
+}
+
+// sharedKeySet: building the query is a read-only use of a key set, so several goroutines may do it at once (a client
+// retrying or fanning out one batch) and must all get the canonical bytes.
+func sharedKeySet(run *ev.Run, rng *rand.Rand) {
+	const n = 20000
+	mk := func(order []int) batchkeyset.BatchKeySet[*kst.CK] {
+		set := batchkeyset.NewBatchKeySet[*kst.CK]()
+		for _, i := range order {
+			_ = set.AddKey(&kst.CK{KeyPart: kst.KeyPart{A: strconv.FormatUint(uint64(i+1)*0x9E3779B97F4A7C15, 36), B: int64(i % 3)}})
+		}
+		return set
+	}
+	canonical, err := mk(rng.Perm(n)).EncodeQueryParams()
+	if err != nil {
+		run.Inconclusive("key set: " + err.Error())
+		return
+	}
+	for round := 0; round < run.Pick(5, 25); round++ {
+		set := mk(rng.Perm(n))
+		const readers = 8
+		out := make([]string, readers)
+		start := make(chan struct{})
+		var wg sync.WaitGroup
+		for g := 0; g < readers; g++ {
+			wg.Add(1)
+			go func(g int) {
+				defer wg.Done()
+				<-start
+				if g%2 == 0 {
+					out[g], _ = set.EncodeQueryParams()
+				} else {
+					q, _ := restlicodec.BuildQueryParams(func(w func(string) restlicodec.Writer) error { return set.Encode(w) })
+					out[g] = q
+				}
+			}(g)
+		}
+		close(start)
+		wg.Wait()
+		for g, q := range out {
+			run.Eval(1)
+			run.Count("shared_key_set_encodes", 1)
+			if q != canonical {
+				ids := idList(q)
+				run.Violation("v2/batch-ids/complexkey/concurrent-encode-of-one-key-set-not-canonical", map[string]any{"goroutine": g, "keys": n, "ids_in_output": len(ids), "ascending": ids != nil && ascending(ids), "output": trunc(q), "canonical": trunc(canonical)})
+				break
+			}
+		}
+	}
+	run.Distinct("ids|complexkey|shared-set")
 }
 
 // idList extracts the still-encoded items of the ids=List(...) parameter (top-level commas only).
